@@ -44,6 +44,33 @@ for name, (cls, ev, pair) in SINGLE_SCPS.items():
             return val
         sent, err, a = run_scp(svc_cls, n_req(cls), context(sop), {ev: (h, None)}, method=method)
         expect(desc, sent, want, name)
+# dsutils.encode on data sets pydicom refuses for different reasons: "cannot be encoded" is None, whatever the writer raised
+from pynetdicom.dsutils import encode as _encode
+import warnings
+warnings.simplefilter("ignore")
+
+
+def _unencodable():
+    a = Dataset()
+    a.Rows = 70000                      # US out of range (pydicom: OSError wrapping struct.error)
+    b = Dataset()
+    b.PatientName = None
+    b["PatientName"].VR = "XX"          # unknown VR (NotImplementedError)
+    c = Dataset()
+    c.BitsAllocated = "sixteen"         # str where a number is packed
+    d = Dataset()
+    d.Rows = 1.5
+    return (("Rows = 70000", a), ("element with VR 'XX'", b), ("BitsAllocated = 'sixteen'", c), ("Rows = 1.5", d))
+
+
+for desc, ds in _unencodable():
+    try:
+        r = _encode(ds, True, True)
+    except BaseException as e:          # noqa
+        r = e
+    if bad is None and r is not None and not isinstance(r, bytes):
+        bad = dict(input=f"dsutils.encode(data set with {desc}, implicit VR little endian)", observed=f"raised {r!r}",
+                   expected="None (the data set cannot be encoded) - the callers map None to their 'cannot encode' status")
 if bad:
     done(True, **bad)
 done(False, note="every scripted handler value gave the documented response status")
